@@ -106,5 +106,8 @@ def run(ctx: RuleContext, p: Program) -> None:
     ctx.try_rule(_c09.rule_slot_agree, p, 'SLOT-AGREE')
     from . import round4 as _r4c
     ctx.try_rule(_r4c.rule_custom_sem, p, 'CUSTOM-SEM')
+    from . import c01 as _c01
+    # the printed output carries the characters of every token's current raw text (a text assigned may be an instance of a str subclass)
+    ctx.try_rule(_c01.rule_print_all, p, 'PRINT-ALL')
     ctx.not_decided += ['that the printed text equals the input with exactly that span replaced (runtime equality; follows from C01 + these)']
     ctx.assumptions += ['primitive: Token._update_raw_text is the single text-changing routine (OWN-TEXT, C08)']
